@@ -257,6 +257,10 @@ impl Report {
             "wall_s": wall,
             "violations": unmatched.len(),
         });
+        if std::env::var("VERIF_ONLY").is_ok() {
+            // replay of a single case: evidence of the last full run is left untouched
+            return code;
+        }
         let edir = root().join("evidence");
         let _ = std::fs::create_dir_all(&edir);
         std::fs::write(edir.join(format!("{}.json", self.id)), serde_json::to_string_pretty(&ev).unwrap())
@@ -309,8 +313,41 @@ pub fn catch<T>(f: impl FnOnce() -> T) -> Result<T, String> {
 }
 
 /// Run `f` over all cases on all cores, merging results deterministically (in case order).
+pub static STAGE: std::sync::atomic::AtomicUsize = std::sync::atomic::AtomicUsize::new(0);
+
+/// `VERIF_ONLY=<stage>:<index>` restricts a run to one case (used by `./check replay`).
+fn only_filter() -> Option<(usize, usize)> {
+    let v = std::env::var("VERIF_ONLY").ok()?;
+    let mut it = v.split(':');
+    Some((it.next()?.parse().ok()?, it.next()?.parse().ok()?))
+}
+
 pub fn par_cases<C: Sync, F: Fn(usize, &C) -> CaseOut + Sync>(cases: &[C], f: F) -> CaseOut {
     use rayon::prelude::*;
+    let stage = STAGE.fetch_add(1, std::sync::atomic::Ordering::SeqCst);
+    let tag = |mut o: CaseOut, idx: usize| -> CaseOut {
+        for v in o.violations.iter_mut() {
+            if let Some(m) = v.record.as_object_mut() {
+                m.insert("replay_stage".into(), serde_json::json!(stage));
+                m.insert("replay_case_index".into(), serde_json::json!(idx));
+            }
+        }
+        o
+    };
+    if let Some((st, idx)) = only_filter() {
+        if st != stage || idx >= cases.len() {
+            return CaseOut::default();
+        }
+        println!("replaying stage {stage} case {idx}");
+        let o = tag(f(idx, &cases[idx]), idx);
+        for v in &o.violations {
+            println!("  observed: {}", v.summary);
+        }
+        if o.violations.is_empty() {
+            println!("  observed: no violation for this case");
+        }
+        return o;
+    }
     let chunk = (cases.len() / 512).max(1);
     let outs: Vec<CaseOut> = cases
         .par_chunks(chunk)
@@ -319,8 +356,7 @@ pub fn par_cases<C: Sync, F: Fn(usize, &C) -> CaseOut + Sync>(cases: &[C], f: F)
             let mut acc = CaseOut::default();
             for (j, c) in ch.iter().enumerate() {
                 let idx = ci * chunk + j;
-                let o = f(idx, c);
-                // keep at most a few violations per chunk to bound memory
+                let o = tag(f(idx, c), idx);
                 acc.merge(o);
             }
             acc
